@@ -5,6 +5,16 @@ using namespace ans;
 
 static int level = 1;
 
+// Largest payload the client extracts exactly, per (query type, downstream codec, caller buffer 4096 / 65536), measured on the
+// unchanged tree with every length and five contents (it does not depend on content or query-name length).  Where the wire
+// carries more than this (TXT, and MX/SRV with the 4 KB handshake buffer) the limit is the client's 4096-byte text buffer.
+// Used as: the server's answer, decoded by the INDEPENDENT reference decoder, carries the whole payload (so it fitted the
+// answer format as emitted) and the length is within this table => the client must deliver it exactly.
+static const int LMAX_FIT[2][7][5] = {
+	{{4096, 4096, 4096, 4096, 4096}, {4096, 4096, 4096, 4096, 4096}, {2559, 3071, 3071, 3583, 4095}, {2464, 2960, 2960, 3447, 2464}, {2464, 2960, 2960, 3447, 2464}, {153, 183, 183, 214, 153}, {153, 183, 183, 214, 153}},
+	{{4096, 4096, 4096, 4096, 4096}, {4096, 4096, 4096, 4096, 4096}, {2559, 3071, 3071, 3583, 4095}, {4096, 4096, 4096, 4096, 4096}, {4096, 4096, 4096, 4096, 4096}, {153, 183, 183, 214, 153}, {153, 183, 183, 214, 153}},
+};
+
 static CaseResult run_case(Tape &t)
 {
 	CaseResult r;
@@ -18,6 +28,7 @@ static CaseResult run_case(Tape &t)
 	int k = classify(p, o);
 	r.render = conf_str(c) + " payload(" + std::to_string(len) + ")=" + hexs(p, 24) + " -> rv=" + std::to_string(o.rv) + " class=" + (k == 0 ? "exact" : (k == 1 ? "nothing" : (k == 2 ? "prefix" : "DIFFERENT")));
 	if (k == 3) r.fail(std::string("C09:mismatch:type=") + QTN[c.qt] + ":codec=" + DE[c.de], "client extracted different bytes than the server was given: " + r.render + " got=" + hexs(o.out, 40));
+	if (r.ok && k != 0 && o.ref_exact && (int)len <= LMAX_FIT[c.buflen > 4096][c.qt][c.de]) r.fail("C09:fits-but-not-delivered", "the payload fits the answer format (the reference decoder extracts all of it) but the client did not deliver it exactly: " + r.render);
 	// the outcome is a matter of the answer format, not of the length of the echoed query name
 	Conf c2 = c; c2.namekind = (c.namekind + 1 + (int)t.below(2)) % 3;
 	Outcome o2 = roundtrip(c2, p, (uint16_t)(1 + t.below(65535)));
@@ -53,6 +64,7 @@ static bool exhaustive(Stats &st, std::string &msg)
 					n++;
 					if (o.ref_agrees) nref++;
 					if (k == 3) { msg = std::string("C09:mismatch:type=") + QTN[qt] + ":codec=" + DE[de] + ": client extracted different bytes: " + conf_str(c) + " len=" + std::to_string(len) + " content-class=" + std::to_string(cls) + " rv=" + std::to_string(o.rv) + " got=" + hexs(o.out, 32) + " want=" + hexs(p, 32); return false; }
+					if (k != 0 && o.ref_exact && len <= LMAX_FIT[bl][qt][de]) { msg = "C09:fits-but-not-delivered: " + conf_str(c) + ": a payload of " + std::to_string(len) + " bytes fits the answer format (the reference decoder extracts all of it from the server's answer) but the client extracted " + (k == 1 ? std::string("nothing") : std::to_string(o.out.size()) + " bytes"); return false; }
 					if (k == 0) {
 						nexact++;
 						if (broken[nk]) { msg = "C09:non-monotonic: " + conf_str(c) + ": length " + std::to_string(len) + " is delivered exactly but the shorter length " + std::to_string(first_bad[nk]) + " was not"; return false; }
@@ -77,6 +89,7 @@ static bool exhaustive(Stats &st, std::string &msg)
 			Conf c{qt, de, 0, bl ? 65536 : 4096};
 			if (lmax[0] < floor_) { msg = "C09:capacity-collapse: " + conf_str(c) + ": largest exactly delivered length is " + std::to_string(lmax[0]) + " (< " + std::to_string(floor_) + ")"; return false; }
 			if (ci == 0) { char b[96]; snprintf(b, sizeof b, "%s/%c/b%d:%d ", QTN[qt], DE[de], bl ? 65536 : 4096, lmax[0]); lmax_report += b; }
+			if (getenv("VERIF_C09_CAL")) fprintf(stderr, "CAL %d %d %d %d %d\n", qt, de, bl, cls, std::min(lmax[0], std::min(lmax[1], lmax[2])));
 		}
 	}
 	st.extra["sweep_roundtrips"] = std::to_string(n);
